@@ -72,7 +72,7 @@ func (b *BitSolid2) Get(i, j int) bool {
 	return b.Bits[j*b.N[0]+i]
 }
 func (b *BitSolid2) Set(i, j int, v bool) { b.Bits[j*b.N[0]+i] = v }
-func (b *BitSolid2) Min() C2             { return b.Origin }
+func (b *BitSolid2) Min() C2              { return b.Origin }
 func (b *BitSolid2) Max() C2 {
 	return b.Origin.Add(model2d.XY(float64(b.N[0]-1), float64(b.N[1]-1)).Scale(b.Delta))
 }
